@@ -173,7 +173,9 @@ fn body_trees(slots: usize) -> impl Fn(&Ch) -> Run + Sync + Send {
   move |ch: &Ch| {
     let mut run = Run::default();
     let g = gen_package(ch, slots);
-    let files: Vec<(String, String)> = g.pkg.files.iter().map(|(p, s)| (format!("file:///pkg{p}"), s.replace("jsr:@s/b@1", "./b.ts"))).collect();
+    let files: Vec<(String, String)> = g.pkg.files.iter().map(|(p, s)| (format!("file:///pkg{p}"), s.replace("jsr:@s/b@1", "./dep.ts"))).collect();
+    let mut files = files;
+    files.push(("file:///pkg/dep.ts".to_string(), DEP_SRC.to_string()));
     let roots: Vec<String> = files.iter().map(|(u, _)| u.clone()).collect();
     let Some((graph, analyzer)) = build_files(&files, &roots, ch) else {
       run.violate("build-did-not-finish", "deadlock", json!({}));
